@@ -147,13 +147,19 @@ CLAIMS = {
     },
     "C15": {
         "level": "other",
-        "text": "With data-dependent index vectors kept symbolic: both outputs of each snapshot are take(take(x, pi), k) for the same "
-                "permutation pi = argsort(volumes) and the same k = searchsorted(cumsum(volumes[pi]) with last entry pinned to 1, rng.random(n)); "
-                "the generator is seeded from the seed argument and is the only randomness; shapes and the n_samples default; nine malformed "
-                "shape combinations raise ValueError before the generator exists. The sampling law itself is statistical and NOT decided.",
-        "note": "Trusted: NumPy fancy-indexing composition, argsort/searchsorted/Generator.random contracts. The chained-comparison shape test "
+        "text": "resample_orientations is interpreted region by region of the volume simplex (all strict orders, exact zeros in every position, "
+                "equal volumes, a dominant grain; 1-4 grains, 1-3 snapshots): volumes and uniform variates stay symbolic, numeric stand-ins "
+                "for the region only decide the data-dependent sorts, searches and comparisons, and each decision on a variate is logged as "
+                "a bound. Per output slot: the stored (orientation, volume) is one input pair of the same snapshot on every variate interval; "
+                "the intervals tile [0, 1) and the total length selecting grain g equals its volume as a polynomial identity on the simplex "
+                "(so zero-volume grains are drawn on a null set only) - independent of how the function sorts or searches. One generator "
+                "seeded from the seed argument, one default-option variate per slot; shapes and the n_samples default; nine malformed shape "
+                "combinations raise ValueError before the generator exists. NOT decided: generator quality, rounding of cumulative sums, "
+                "regions other than the listed order types.",
+        "note": "Trusted: NumPy sort/searchsorted/fancy-indexing/Generator.random contracts. The chained-comparison shape test "
                 "that accepted (N,M,1,1)/(N,M,1,3) stacks was repaired (fix: commit in /repo).",
-        "technique": "abstract interpretation with symbolic index/provenance values + effect trace",
+        "technique": "abstract interpretation in model-point mode (symbolic values, region stand-ins decide data-dependent control; decisions logged "
+                     "as interval bounds) + polynomial identity of selection measure on the simplex + effect trace",
     },
     "C16": {
         "level": "other",
